@@ -430,3 +430,108 @@ async fn pipeline_cases() {
         out.put(&json!({"case": k, "mismatches": mism}));
     }
 }
+
+// ------------------------------------------------------------------------------------------------------------
+// C12 / C07: what the relayer published, decoded by the conductor's own pipeline
+
+/// A commit on (height, hash) signed by all three validators.
+fn full_commit(height: u32, hash: [u8; 32]) -> Commit {
+    let signatures = (1..=3usize)
+        .map(|v| CommitSig::BlockIdFlagCommit {
+            validator_address: info(v, 1).address,
+            timestamp: timestamp(),
+            signature: Some(
+                key(v).sign(&vote_bytes(height, Some(hash))).to_bytes().as_ref().try_into().unwrap(),
+            ),
+        })
+        .collect();
+    Commit {
+        height: height.into(),
+        round: 0u16.into(),
+        block_id: block_id(hash),
+        signatures,
+    }
+}
+
+/// `decode_submissions`: one case per (relayer run, rollup).  Every submission's blobs (files written by the relayer
+/// harness) go through `decode_raw_blobs` -> `verify_metadata` (commits served by a wiremock CometBFT) ->
+/// `reconstruct_blocks_from_verified_blobs`, as the Celestia reader does; reported per submission: the blocks
+/// reconstructed (height, hash, digests of the rollup's data items).
+#[tokio::test]
+async fn decode_submissions() {
+    use sha2::Digest as _;
+    let cases = io::read_cases();
+    let mut out = io::Writer::open();
+    let server = wiremock::MockServer::start().await;
+    let mut mounted = std::collections::HashSet::new();
+    let client = sequencer_client::HttpClient::new(server.uri().as_str()).unwrap();
+    let (_tx, state_rx) = crate::state::channel(crate::test_utils::make_rollup_state(
+        "verif".to_string(),
+        crate::test_utils::make_execution_session_parameters(),
+        crate::test_utils::make_commitment_state(),
+    ));
+    let seq_ns = astria_core::celestia::namespace_v0_from_sha256_of_bytes(CHAIN_ID.as_bytes());
+    for c in &cases {
+        for b in c["blocks"].as_array().unwrap() {
+            let h = b["chain_height"].as_u64().unwrap() as u32;
+            let hash: [u8; 32] = hex::decode(b["hash"].as_str().unwrap()).unwrap().try_into().unwrap();
+            if mounted.insert((h, hash)) {
+                mount(&server, h, full_commit(h, hash), make_validators(&vec![1; 3], h)).await;
+            }
+        }
+        let rid = RollupId::new([c["rollup"].as_u64().unwrap() as u8; 32]);
+        let rollup_ns = astria_core::celestia::namespace_v0_from_rollup_id(rid);
+        let verifier = Arc::new(super::verify::BlobVerifier::try_new(client.clone(), 100_000).unwrap());
+        let mut subs = vec![];
+        for (k, sub) in c["subs"].as_array().unwrap().iter().enumerate() {
+            let mut header_blobs = vec![];
+            let mut rollup_blobs = vec![];
+            for b in sub["blobs"].as_array().unwrap() {
+                let id = hex::decode(b["ns"].as_str().unwrap()).unwrap();
+                let ns = celestia_types::nmt::Namespace::new_v0(&id).unwrap();
+                let data = std::fs::read(b["file"].as_str().unwrap()).unwrap();
+                // the reader fetches by namespace: it only ever sees these two
+                if ns == seq_ns {
+                    header_blobs.push(blob(ns, data));
+                } else if ns == rollup_ns {
+                    rollup_blobs.push(blob(ns, data));
+                }
+            }
+            let raw = super::fetch::RawBlobs {
+                celestia_height: 100 + k as u64,
+                header_blobs,
+                rollup_blobs,
+            };
+            let decoded = catch_unwind(AssertUnwindSafe(|| super::convert::decode_raw_blobs(raw, rollup_ns, seq_ns)));
+            let Ok(converted) = decoded else {
+                subs.push(json!({"panic": "decode"}));
+                continue;
+            };
+            let n_meta = converted.len_headers();
+            let verified = super::verify::verify_metadata(verifier.clone(), converted, state_rx.clone()).await;
+            let n_verified = verified.len_header_blobs();
+            let blocks = match catch_unwind(AssertUnwindSafe(|| {
+                super::reconstruct::reconstruct_blocks_from_verified_blobs(verified, rid)
+            })) {
+                Ok(b) => b,
+                Err(_) => {
+                    subs.push(json!({"panic": "reconstruct"}));
+                    continue;
+                }
+            };
+            let mut bl: Vec<Value> = blocks
+                .iter()
+                .map(|b| {
+                    json!({
+                        "chain_height": b.header.height().value(),
+                        "hash": hex::encode(b.block_hash.as_bytes()),
+                        "txs": b.transactions.iter().map(|t| hex::encode(sha2::Sha256::digest(t))).collect::<Vec<_>>(),
+                    })
+                })
+                .collect();
+            bl.sort_by_key(|b| b["chain_height"].as_u64());
+            subs.push(json!({"metadata_entries": n_meta, "metadata_verified": n_verified, "blocks": bl}));
+        }
+        out.put(&json!({"i": c["id"], "subs": subs}));
+    }
+}
